@@ -200,6 +200,7 @@ def main(tier, seed):
     nb = 16 if q else 64
     batches = [{"cases": cases[i::nb]} for i in range(nb)]
     acc = harness.run_workers("checks.c08_end_of_life", "run_batch", batches, 3400)
+    harness.require_vnet_fidelity(acc)
     cells = acc.extra.pop("cells", {})
     return harness.finish(PROP, tier, seed, "fault_enumeration", acc, RULE,
                           ["bounds are on the virtual clock (60 s) and the step counter; a wall-clock watchdog firing is inconclusive",
